@@ -31,6 +31,9 @@ type pcVec struct {
 	Depth int    `json:"depth"`
 	Fork  string `json:"fork"`
 	Pc    string `json:"pc"`
+	Kind1 string `json:"kind1"`
+	Kind2 string `json:"kind2"`
+	Same  bool   `json:"same"`
 }
 
 type pcExp struct {
@@ -351,6 +354,76 @@ func (r *pcRunner) attr(v pcVec, x pcExp) {
 	}
 }
 
+// pcCaller builds a contract that reaches 0x66 with the canonical payload by the given call kind and stores flag+1 at slot 1.
+func pcCaller(kind string) []byte {
+	target, payload := pcCanonical("write")
+	a := evmx.NewAsm()
+	a.MStoreBytes(0x100, payload)
+	a.Push(32).Push(0x300).Push(uint64(len(payload))).Push(0x100)
+	switch kind {
+	case "CALL":
+		a.Push(0).PushAddr(target).Push(60000).Op(vm.CALL)
+	case "CALLCODE":
+		a.Push(0).PushAddr(target).Push(60000).Op(vm.CALLCODE)
+	case "DELEGATECALL":
+		a.PushAddr(target).Push(60000).Op(vm.DELEGATECALL)
+	case "STATICCALL":
+		a.PushAddr(target).Push(60000).Op(vm.STATICCALL)
+	}
+	a.Push(1).Op(vm.ADD).Push(1).Op(vm.SSTORE, vm.STOP)
+	return a.Bytes()
+}
+
+// seq: contract A1 reaches 0x66 by kind1, then contract A2 (the same or another one) by kind2, in one process and one EVM
+func (r *pcRunner) seq(v pcVec, x pcExp) {
+	A1 := common.HexToAddress("0x00000000000000000000000000000000000000a1")
+	A2 := common.HexToAddress("0x00000000000000000000000000000000000000a2")
+	if v.Same {
+		A2 = A1
+	}
+	e := evmx.NewEnv(evmx.EnvOpts{Fork: v.Fork})
+	e.State.SetCode(A1, pcCaller(v.Kind1))
+	e.State.SetNonce(A1, 1)
+	if !v.Same {
+		e.State.SetCode(A2, pcCaller(v.Kind2))
+		e.State.SetNonce(A2, 1)
+	}
+	e.EVM.IsExecuteJP = false
+	desc := fmt.Sprintf("%s to 0x66 by one contract, then %s by %s on %s", v.Kind1, v.Kind2, map[bool]string{true: "the same contract", false: "another contract"}[v.Same], v.Fork)
+	e.Prepare(&A1)
+	r1 := e.Call(e.Origin, A1, nil, 1_000_000, big.NewInt(0))
+	n1 := len(e.Host.Calls)
+	if v.Same {
+		e.State.SetCode(A1, pcCaller(v.Kind2))
+		e.State.SetState(A1, common.BigToHash(big.NewInt(1)), common.Hash{})
+	}
+	e.Prepare(&A2)
+	r2 := e.Call(e.Origin, A2, nil, 1_000_000, big.NewInt(0))
+	if r1.Panic != "" || r2.Panic != "" {
+		r.miss("pc.panic", "%s panicked: %s %s", desc, r1.Panic, r2.Panic)
+		return
+	}
+	flag := e.State.GetState(A2, common.BigToHash(big.NewInt(1))).Big().Int64() - 1
+	second := e.Host.Calls[n1:]
+	a2 := hex.EncodeToString(A2[:])
+	for _, c := range second {
+		if c.Kind == "write" && c.Addr != a2 {
+			r.miss("pc.attr", "%s: the second write was attributed to %s, the calling contract is %s", desc, c.Addr, a2)
+		}
+	}
+	if x.Must == "caller" && (flag != 1 || len(second) != 1) {
+		r.miss("pc.attr", "%s: second call has success flag %d and %d host writes; expected one write attributed to its caller", desc, flag, len(second))
+	}
+	if x.Must != "caller" {
+		if flag == 1 && len(second) != 1 {
+			r.miss("pc.attr", "%s: second call reported success but %d host writes", desc, len(second))
+		}
+		if flag == 0 && len(second) != 0 {
+			r.miss("pc.attr", "%s: second call was refused but the host was written to", desc)
+		}
+	}
+}
+
 func precompileCmd(args []string) int {
 	fs := flag.NewFlagSet("precompile", flag.ExitOnError)
 	out := fs.String("out", "", "report file")
@@ -368,6 +441,8 @@ func precompileCmd(args []string) int {
 			r.sender(l.V, l.E)
 		case "attr":
 			r.attr(l.V, l.E)
+		case "seq":
+			r.seq(l.V, l.E)
 		}
 	}
 	if *one != "" {
@@ -421,7 +496,7 @@ func precompileCmd(args []string) int {
 		runOne(l)
 		rep.Vectors++
 		rep.ByKind[l.V.K]++
-		if l.E.Ok || l.V.K == "attr" {
+		if l.E.Ok || l.V.K == "attr" || l.V.K == "seq" {
 			okCount++
 		}
 		seen := map[string]bool{}
